@@ -276,4 +276,6 @@ func init() {
 		"	startApprox, err := i.search(ref, r)\n	if err != nil {\n		return\n	}\n	readStamp := newStampReader()\n	if !startApprox.Exact() {\n		approx.Upper, err", "	startApprox, err := i.search(ref, r)\n	readStamp := newStampReader()\n	if !startApprox.Exact() {\n		approx.Upper, err", "C02.ERR")
 	mut("C05", "an invalid frame is written anyway after the first call", "cesium/writer_stream.go",
 		"	err := w.validateWrite(fr)\n	if err != nil {", "	err := w.validateWrite(fr)\n	if err != nil && w.numWriteCalls == 1 {", "C05.ERR")
+	mut("C05", "a gate that takes control on open does not grow the region", "cesium/internal/control/region.go",
+		"	r.timeRange = r.timeRange.Union(cfg.TimeRange)\n", "	if r.curr != nil && g.authority <= r.curr.authority {\n		r.timeRange = r.timeRange.Union(cfg.TimeRange)\n	}\n", "C05.R5.range")
 }
